@@ -167,6 +167,17 @@ CHECKS = {
          "printed in the files, (d) the ten constants of iodata.utils to 2e-8 relative.",
     note="CODATA 2018 values are stated in the harness; unit classes of program-log quantities use isotopic masses and the printed numbers",
     technique="TLA+ unit/constant tables checked with TLC + TLC validation of cross-format and file-vs-object unit relations"),
+ "C06": dict(
+    category="other", design_ref="DESIGN.md section 6 C06 and section 7",
+    text="TLC decides the integer Obara-Saika table of the 1-D Gaussian product integral on the lattice p = 1/2 (Moments, "
+         "KernelSymmetry) and the invariance of function identities under the equivariance actions of Overlap.tla (state machine "
+         "over pairs of abstract bases); the binding converts real compute_overlap values of Cartesian primitive pairs on the "
+         "lattice to integers that TLC validates against OS (with the polynomial-identity argument this extends to all real "
+         "arguments), replays TLC-simulated action sequences on concrete bases (identity-labelled, sign-corrected matrix must be "
+         "invariant) and compares random one- and two-basis cases (l <= 7, generalized contractions, random conventions, "
+         "coincident centres) with an independent reference evaluator; symmetry, PSD, transposition, screening and rejections.",
+    note="exactness for general real exponents rests on the polynomial argument and on the reference evaluator (a second implementation built from docs/basis.rst), not on TLC",
+    technique="TLA+ integer-lattice kernel table and equivariance state machine checked with TLC + lattice binding, behaviour replay and reference-evaluator comparison"),
 }
 NOT_YET = "check not built yet in this round (planned, see DESIGN.md section 6)"
 
